@@ -255,7 +255,7 @@ def harness(ctx):
     R = vlib.REPO
     exe, log = ctx.cc('h_pack', [os.path.join(vlib.VERIF, 'harness/h_pack.c'), R + '/librfn/pack.c'])
     if not exe:
-        raise vlib.Infra('pack harness does not compile against the repository: ' + log[-1500:])
+        raise vlib.Unbuildable('pack harness does not compile against the repository: ' + log[-1500:])
     return exe
 
 
